@@ -23,7 +23,7 @@ def sink_unit(H, VERIF, scn, nmax, ring, polls=3, envmax=10, timeout=1500, solve
              repo=[RT + "vfslice.c", RT + "throttler.c", HAL + "storage.c", HAL + "driver.c", COMP], env=ENV_UNIT + ["env/chan_contract.c"],
              defines=["SCN=%d" % scn, "NMAX=%d" % nmax, "RING_FRAMES=%d" % ring, "POLL_MAX=%d" % polls, "ENV_MAX=%d" % envmax, "TAPE_BYTES=%d" % ((nmax + 1) * 104), "WRITE_UNIT=104"] + (["FIX_DELAY0=1"] if delay0 else []),
              cflags=cflags(VERIF), unwind=nmax + 3, unwindset={"min_consumed.0": 9, "tape_at.0": 12, "video_sink_thread.0": nmax + 3, "video_sink_thread.1": nmax + 3, "video_sink_thread.2": polls + 2, "video_sink_thread.3": nmax + 3, "video_sink_thread.4": nmax + 3, "video_sink_thread.5": nmax + 3},
-             solver=solver, timeout=timeout, mem_gb=28, drop_flags=["--pointer-overflow-check"],
+             solver=solver, timeout=timeout, mem_gb=28, drop_flags=["--pointer-overflow-check"], ignore=[r"pointer relation:"],
              what="real video_sink_thread + vfslice + channel + HAL storage vs. an environment writer committing frames at arbitrary boundaries (scenario: %s)" % names[scn],
              bounds=dict(frames="1..%d" % nmax, ring_frames=ring, polls=polls, env_steps=envmax, write_delay="0 or >0 with arbitrary clock"))
 
@@ -35,3 +35,22 @@ def start_flags(H, VERIF, which):
              solver="cadical", timeout=600, mem_gb=12,
              what="video_%s_start from ARBITRARY is_stopping/is_running left by an earlier acquisition: after a successful start is_stopping == 0, is_running == 1, device started" % nm,
              bounds=dict(flags="any 8-bit value"))
+
+def api(H, VERIF, prog, acqs, nmax, ring, timeout=1200, solver="cadical", name=None, excludes=()):
+    return H(name or "api_prog%d_A%d_N%d_K%d" % (prog, acqs, nmax, ring), "harness/runtime/api.c", repo=RUNTIME_SRCS, env=ENV_COARSE,
+             defines=["PROG=%d" % prog, "ACQS=%d" % acqs, "NMAX=%d" % nmax, "RING_FRAMES=%d" % ring, "VERIF_TYPED_RING=104", "VERIF_RING_SLOTS=%d" % ring] + list(excludes), cflags=cflags(VERIF),
+             unwind=max(7, 2 * nmax + 3), unwindset={"verif_memset_b.0": ring * 104 + 16}, solver=solver, timeout=timeout, mem_gb=24,
+             what="whole real runtime over mock devices, coarse worker schedules, program template %d, %d acquisition(s) of 1..%d frames, ring = %d frames" % (prog, acqs, nmax, ring),
+             bounds=dict(acquisitions=acqs, frames_per_acquisition="1..%d" % nmax, ring_frames=ring, client="<=2 map/unmap rounds per acquisition, partial consumption, may hold across stop"))
+
+def inst(H, VERIF, acqs, n, early, ab, cl, ring=3, excl=True, timeout=900, prog=1):
+    d = ["FIX_N=%d" % n, "FIX_EARLY=%d" % early, "CL_MODE=%d" % cl]
+    if ab is not None:
+        d.append("FIX_ABORT=%d" % ab)
+    if excl:
+        d.append("EXCL_C06_FIRST_MAP=1")
+    h = api(H, VERIF, prog, acqs, n, ring, timeout, name="api_A%d_N%d_e%d_%s_cl%d%s" % (acqs, n, early, {None: "sa", 0: "stop", 1: "abort"}[ab], cl, "" if excl else "_firstmap"), excludes=d)
+    h.what += "; source %s the client, %s, client mode %d%s" % ("before" if early else "after", {None: "stop or abort (symbolic)", 0: "stop", 1: "abort"}[ab], cl,
+                                                                "" if excl else " (client's first map ever happens after data exists: known-finding witness)")
+    return h
+
